@@ -151,9 +151,11 @@ func hangClass(d *Doc) string {
 // Run is the C01 search run.
 func Run(tier string, seed uint64, modelPath, repo string, out *res.Result) error {
 	t0 := time.Now()
-	nDocs, metaEvery, rerunBudget := 3000, 3, 240*time.Second
+	nDocs, metaEvery, rerunBudget := 1500, 3, 80*time.Second
+	rerunLimitMS := 40000
 	if tier == "thorough" {
-		nDocs, metaEvery, rerunBudget = 150000, 6, 900*time.Second
+		nDocs, metaEvery, rerunBudget = 30000, 6, 600*time.Second
+		rerunLimitMS = 120000
 	}
 	if os.Getenv("WRH_C01_NORERUN") != "" {
 		rerunBudget = 0
@@ -163,7 +165,7 @@ func Run(tier string, seed uint64, modelPath, repo string, out *res.Result) erro
 			nDocs = n
 		}
 	}
-	out.Rule = "documents = element soup (<=45 elements, depth<=6: blocks, inlines, tables, lists, forms, img/data: URIs valid+corrupt, inline SVG) x inline/author/user CSS (display/position/float/columns/flex/grid/table/break/counters/content/var()/@page degenerate sizes/margin boxes/@counter-style/@font-face/@media) x hints on/off x {pango, go-text}; every document rendered in a worker subprocess (watchdog: 10 s of CPU time, re-run alone with 120 s; page-loop detector; 2 GiB heap cap); non-trivial = rendered to >=1 page with >=5 nodes, distinct by document text; 1/" + strconv.Itoa(metaEvery) + " of the rendered documents re-rendered with one injected invalid construct and compared trace for trace"
+	out.Rule = "documents = element soup (<=45 elements, depth<=6: blocks, inlines, tables, lists, forms, img/data: URIs valid+corrupt, inline SVG) x inline/author/user CSS (display/position/float/columns/flex/grid/table/break/counters/content/var()/@page degenerate sizes/margin boxes/@counter-style/@font-face/@media) x hints on/off x {pango, go-text}; every document rendered in a worker subprocess (watchdog: 10 s of CPU time, then a second run with 40 s (quick) / 120 s (thorough) of CPU time; page-loop detector; 2 GiB heap cap); non-trivial = rendered to >=1 page with >=5 nodes, distinct by document text; 1/" + strconv.Itoa(metaEvery) + " of the rendered documents re-rendered with one injected invalid construct and compared trace for trace"
 
 	// Lean model correspondence (small models of the loop-carrying cores)
 	if err := runModel(modelPath, seed, tier, repo, out); err != nil {
@@ -256,29 +258,36 @@ func Run(tier string, seed uint64, modelPath, repo string, out *res.Result) erro
 	}
 	out.Notes = append(out.Notes, fmt.Sprintf("phase 1: %d documents on %d workers in %.0fs; max announced-pages/bytes ratio among finished documents %.3f", len(docs), pool.n, time.Since(t0).Seconds(), maxRatio))
 
-	// timeouts: re-run alone (nothing else is running now), 120 s
-	tRerun := time.Now()
-	rerunPerClass := map[string]int{}
+	// timeouts: second chance with a longer CPU-time limit (the limit is CPU time of the worker, so the
+	// other re-runs going on at the same time cannot turn a slow document into a hang)
+	maxRerun := 32
+	if tier == "thorough" {
+		maxRerun = 400
+	}
+	var rcases []Case
+	var ridx []int
 	for _, i := range timeouts {
-		cls := hangClass(docs[i])
-		if time.Since(tRerun) > rerunBudget || rerunPerClass[cls] >= 3 {
+		if len(rcases) >= maxRerun {
 			out.Hit("timeout-not-rerun")
-			out.Notes = append(out.Notes, fmt.Sprintf("timeout of case %d (class %s) not re-run: re-run budget spent or class already confirmed 3 times", i, cls))
 			continue
 		}
 		c := cases[i]
-		c.LimitMS = 120000
-		o := pool.One(c)
+		c.LimitMS = rerunLimitMS
+		rcases = append(rcases, c)
+		ridx = append(ridx, i)
+	}
+	_ = rerunBudget
+	routs := pool.All(rcases, nil)
+	for k, o := range routs {
+		i := ridx[k]
 		out.Hit("rerun:" + o.Status)
 		switch o.Status {
 		case "timeout":
-			rerunPerClass[cls]++
-			fails = append(fails, failure{doc: docs[i], out: o, key: "hang", kind: "crash", reason: fmt.Sprintf("no result after 120 s of CPU time when run alone (page %d announced)", o.Counted)})
+			fails = append(fails, failure{doc: docs[i], out: o, key: "hang", kind: "crash", reason: fmt.Sprintf("no result after %d s of CPU time (page %d announced)", rerunLimitMS/1000, o.Counted)})
 		case "memory":
-			fails = append(fails, failure{doc: docs[i], out: o, key: "memory", kind: "crash", reason: fmt.Sprintf("memory blow-up (>2 GiB heap) when run alone (page %d announced)", o.Counted)})
+			fails = append(fails, failure{doc: docs[i], out: o, key: "memory", kind: "crash", reason: fmt.Sprintf("memory blow-up (>2 GiB heap) (page %d announced)", o.Counted)})
 		case "pageloop":
-			rerunPerClass[cls]++
-			fails = append(fails, failure{doc: docs[i], out: o, key: "hang", kind: "crash", reason: fmt.Sprintf("%s when run alone (page %d announced)", o.Status, o.Counted)})
+			fails = append(fails, failure{doc: docs[i], out: o, key: "hang", kind: "crash", reason: fmt.Sprintf("page loop (page %d announced)", o.Counted)})
 		case "panic", "fatal":
 			fails = append(fails, failure{doc: docs[i], out: o, key: crashKey(o), kind: "crash", reason: o.Panic})
 		case "ok":
@@ -367,7 +376,7 @@ func Run(tier string, seed uint64, modelPath, repo string, out *res.Result) erro
 var shrinkDeadline time.Time
 
 func report(pool *Pool, fails []failure, kf []kfEntry, out *res.Result, tier string) {
-	shrinkDeadline = time.Now().Add(240 * time.Second)
+	shrinkDeadline = time.Now().Add(50 * time.Second)
 	if tier == "thorough" {
 		shrinkDeadline = time.Now().Add(600 * time.Second)
 	}
@@ -419,7 +428,7 @@ func report(pool *Pool, fails []failure, kf []kfEntry, out *res.Result, tier str
 			return append(first, rest...)
 		}
 		unexplained, explained = spread(unexplained), spread(explained)
-		limU, limE := 3, 2
+		limU, limE := 3, 1
 		if os.Getenv("WRH_C01_ALLFINDINGS") != "" {
 			limU, limE = 6, 6
 		}
@@ -489,7 +498,7 @@ func normMsg(m string) string {
 func shrinkOne(pool *Pool, f failure) res.Finding {
 	op := opRender
 	var still func(d *Doc) bool
-	budget := 400
+	budget := 150
 	switch {
 	case f.kind == "judge":
 		op = opMeta
